@@ -25,11 +25,13 @@
 (* OwnTreeOnly); nothing is put on Errors (NoSpuriousError).               *)
 (* FIX_BOUNDARY / FIX_REKEY / FIX_ENOENT / FIX_MOVED / FIX_RMALL describe  *)
 (* the repaired defects D4 (two parts), D8, D10 (found by this model) and  *)
-(* D11 (found by replaying this model's lagging-reader behaviours).        *)
+(* D11 (found by replaying this model's lagging-reader behaviours);        *)
+(* FIX_PATHKEY D13 (a directory renamed over an empty one).                *)
 (***************************************************************************)
 EXTENDS Integers, Sequences, FiniteSets, TLC, SequencesExt
 
 CONSTANTS MaxIno, MaxSteps, FIX_BOUNDARY, FIX_REKEY, FIX_ENOENT,
+          FIX_PATHKEY,   \* D13 repaired: dropping a watch deletes the path key only if it still belongs to that watch
           FIX_RMALL,     \* D11 repaired: Remove releases every kernel watch of the tree even if inotify_rm_watch fails for one of them
           FIX_MOVED      \* D10 repaired: a directory moved inside the tree is not looked up by path again (it is watched already)
 
@@ -161,6 +163,21 @@ Rename(i, np, n) ==
   /\ nextCk' = nextCk + 1
   /\ UNCHANGED <<alive, nextIno, marks, nextWd, wdT, pathT, ck, added, bad>>
 
+\* rename(2) of a directory OVER an empty directory of the same tree: the victim's inode goes (after the move records)
+RenameOver(i, j) ==
+  /\ Tick /\ NoPendingCreate /\ i \in alive \ Roots /\ j \in alive \ Roots /\ i # j /\ Children(j) = {}
+  /\ ~Under(j, i) /\ ~Under(i, j) /\ RootOf(j) = RootOf(i)
+  /\ parent' = [parent EXCEPT ![i] = parent[j]] /\ nm' = [nm EXCEPT ![i] = nm[j]]
+  /\ alive' = alive \ {j}
+  /\ LET op == parent[i]  np == parent[j]
+         k1 == IF WdOfIn(marks, op) # 0 THEN Append(kq, Rec(WdOfIn(marks, op), "movedfrom", nm[i], nextCk, TruePath(i))) ELSE kq
+         k2 == IF WdOfIn(marks, np) # 0 THEN Append(k1, Rec(WdOfIn(marks, np), "movedto", nm[j], nextCk, TruePath(j))) ELSE k1
+         k3 == IF WdOfIn(marks, i) # 0 THEN Append(k2, Rec(WdOfIn(marks, i), "moveself", "", 0, <<>>)) ELSE k2
+         k4 == IF WdOfIn(marks, j) # 0 THEN k3 \o <<Rec(WdOfIn(marks, j), "delself", "", 0, TruePath(j)), Rec(WdOfIn(marks, j), "ignored", "", 0, <<>>)>> ELSE k3
+     IN kq' = k4 /\ marks' = {m \in marks : m.ino # j}
+  /\ nextCk' = nextCk + 1
+  /\ UNCHANGED <<nextIno, nextWd, wdT, pathT, ck, added, bad>>
+
 ---------------------------------------------------------------------------
 \* Reader: handleEvent for one record (all watches of this model are recursive)
 Handle ==
@@ -171,7 +188,9 @@ Handle ==
      ELSE
      LET watch == CHOOSE x \in rows : TRUE
          name  == IF r.n = "" THEN watch.path ELSE Append(watch.path, r.n)
-         DropWatch(w, p) == [w |-> {x \in w : x.wd # watch.wd}, p |-> {x \in p : x.path # watch.path}]
+         \* w.watches.remove(watch): delete(w.path, watch.path) - before D13 even if that key belongs to another watch by now
+         DropWatch(w, p) == [w |-> {x \in w : x.wd # watch.wd},
+                             p |-> {x \in p : ~(x.path = watch.path /\ (x.wd = watch.wd \/ ~FIX_PATHKEY))}]
      IN
      CASE r.kind = "ignored" ->
             /\ wdT' = DropWatch(wdT, pathT).w /\ pathT' = DropWatch(wdT, pathT).p /\ kq' = Tail(kq)
@@ -210,6 +229,7 @@ Next == (\E r \in Roots : AddRec(r) \/ RemoveRec(r))
         \/ (\E p \in 1..MaxIno, n \in Comp : Mkdir(p, n))
         \/ (\E i \in 1..MaxIno : Rmdir(i))
         \/ (\E i, np \in 1..MaxIno, n \in Comp : Rename(i, np, n))
+        \/ (\E i, j \in 1..MaxIno : RenameOver(i, j))
         \/ Handle
 Spec == Init /\ [][Next]_vars
 
